@@ -118,6 +118,6 @@ Fixpoint drive (s : dstate) (ops : list fop) : list string :=
   end.
 
 Definition model_trace (m : nat) (ops : list fop) : string :=
-  show_list (fun x => x) "|" (drive (finit m [(1, tt)], []) ops).
+  show_list (fun x => x) "|" (drive (finit m {| u_map := [(1, 0)]; u_store := fun _ => tt |}, []) ops).
 End ModelDriver.
 
